@@ -19,16 +19,23 @@ def rational(x, tol=1e-10):
 
 
 def decode_eps(x, pow_=1):
-    """17 entries for k = -8..8: rational of x**pow / EPS**k, or [] when not rational."""
+    """All readings of x**pow as (n/d) * EPS**k: a list of [k, n, d] for every k in -24..24 for which
+    x**pow / EPS**k is a rational with small denominator (the specification says which k it expects)."""
     out = []
     try:
         v = float(x) ** pow_
     except OverflowError:
-        v = float("inf")
-    for k in range(-8, 9):
+        return out
+    if v == 0:
+        return [[0, 0, 1]]
+    if math.isnan(v) or math.isinf(v):
+        return out
+    k0 = int(round(math.log(abs(v)) / math.log(EPS)))
+    for k in range(max(-24, k0 - 2), min(24, k0 + 2) + 1):
         try:
             r = rational(v / (EPS ** k))
-        except OverflowError:
+        except (OverflowError, ZeroDivisionError):
             r = None
-        out.append(r if r is not None else [])
+        if r is not None and r[0] != 0 and abs(r[0]) < 10 ** 8 and r[1] < 10 ** 8:
+            out.append([k, r[0], r[1]])
     return out
